@@ -15,8 +15,10 @@ from mbt import engine
 from drivers import gbnf
 
 NAMES = {"STATUS", "Status", "A-B", "A_B", "A.B", "A/B", "NAME", "CONTENT", "content", "ws", "field", "document", "root",
-         "envelope-start", "envelope-end", "meta-block", "meta-content", "meta-field", "caf{U00E9}", "X9", "_lead", "Trail_", "a--b", "{U0416}"}
-PAIRS = {"STATUS", "Status", "A-B", "A_B", "A.B", "A_dot_B", "CONTENT", "content", "X"}
+         "envelope-start", "envelope-end", "meta-block", "meta-content", "meta-field", "caf{U00E9}", "X9", "_lead", "Trail_", "a--b", "{U0416}",
+         "DIGIT", "number", "string", "value"}
+PAIRS = {"STATUS", "Status", "A-B", "A_B", "A.B", "A_dot_B", "CONTENT", "content", "X", "DIGIT", "digit", "NUMBER", "number", "string", "value"}
+PAIR_CHAINS = {"type_number", "range", "type_string", "date"}        # chains that may bring helper rules of their own into the grammar
 
 
 def replay(item):
@@ -46,7 +48,7 @@ MATCHERS = {"C12-underscore-in-rule-names": _underscore}
 
 def run(ctx):
     try:
-        res = ctx.model("Gbnf", constants={"NamePool": NAMES, "ChainPool": set(gbnf.CHAINS), "PairNames": PAIRS}, invariants=["EmitCase"],
+        res = ctx.model("Gbnf", constants={"NamePool": NAMES, "ChainPool": set(gbnf.CHAINS), "PairNames": PAIRS, "PairChains": PAIR_CHAINS}, invariants=["EmitCase"],
                         required_actions=["One", "Two"])
         cases = list(res.payload_lines())
         if not ctx.thorough:
@@ -58,7 +60,7 @@ def run(ctx):
     finally:
         gbnf.cleanup()
     tr = [{"i": r["i"], "case": r["case"], "obs": [{"exit": o["exit"], "tokens": o["tokens"]} for o in r["obs"]]} for r in recs if r["obs"]]
-    fails = ctx.validate("Trace_Gbnf", tr, constants={"NamePool": set(), "ChainPool": set(), "PairNames": set()})
+    fails = ctx.validate("Trace_Gbnf", tr, constants={"NamePool": set(), "ChainPool": set(), "PairNames": set(), "PairChains": set()})
     failures = [{"i": r["i"], "case": r["case"], "obs": [{"exit": o["exit"], "grammar": o["grammar"][:600]} for o in r["obs"]][:2],
                  "obs_full": r["obs"], "fails": fails[r["i"]]} for r in recs if r["i"] in fails]
     ngr = sum(len(r["obs"]) for r in recs)
